@@ -23,8 +23,8 @@ pub fn def() -> PropDef {
 fn plan(tier: Tier) -> Vec<Unit> {
     match tier {
         Tier::Quick => {
-            let mut v = crate::util::split_budget("pairs", 60_000, 1_000);
-            v.extend(crate::util::split_budget("zero", 4_000, 500));
+            let mut v = crate::util::split_budget("pairs", 500_000, 5_000);
+            v.extend(crate::util::split_budget("zero", 20_000, 1_000));
             v
         }
         Tier::Thorough => {
